@@ -1,0 +1,117 @@
+//! Thin public wrappers over crate-private items, used by the external
+//! verification machinery (replay of counterexamples, translation validation).
+//!
+//! Compiled only with `--cfg meshless_voro_verif` (or under Kani); adds no
+//! behaviour of its own: every function forwards to the real item.
+
+use glam::DVec3;
+
+use super::{
+    boundary::SimulationBoundary, convex_cell::WithoutFaces, half_space::HalfSpace, ConvexCell,
+    Dimensionality, Generator, Voronoi, VoronoiCell, VoronoiFace,
+};
+use crate::simple_cycle::SimpleCycle;
+
+pub fn in_sphere_test_exact(a: &[i64], b: &[i64], c: &[i64], d: &[i64], v: &[i64]) -> f64 {
+    crate::geometry::in_sphere_test_exact(a, b, c, d, v)
+}
+
+/// `SimulationBoundary::cuboid`, returned opaque.
+pub struct Boundary(pub(crate) SimulationBoundary);
+
+pub fn cuboid(anchor: DVec3, width: DVec3, periodic: bool, dimensionality: Dimensionality) -> Boundary {
+    Boundary(SimulationBoundary::cuboid(anchor, width, periodic, dimensionality))
+}
+
+impl Boundary {
+    pub fn iloc(&self, loc: DVec3) -> [i64; 3] {
+        self.0.iloc(loc)
+    }
+
+    pub fn clipping_planes(&self) -> &[HalfSpace] {
+        &self.0.clipping_planes
+    }
+}
+
+pub fn generator_new(id: usize, loc: DVec3, dimensionality: Dimensionality) -> Generator {
+    Generator::new(id, loc, dimensionality)
+}
+
+pub fn convex_cell_init(loc: DVec3, idx: usize, boundary: &Boundary) -> ConvexCell<WithoutFaces> {
+    ConvexCell::init(loc, idx, &boundary.0)
+}
+
+pub fn convex_cell_clip_by_plane(
+    cell: &mut ConvexCell<WithoutFaces>,
+    p: HalfSpace,
+    generators: &[Generator],
+    boundary: &Boundary,
+) {
+    cell.clip_by_plane(p, generators, &boundary.0)
+}
+
+pub fn convex_cell_safety_radius(cell: &ConvexCell<WithoutFaces>) -> f64 {
+    cell.safety_radius
+}
+
+pub fn vertex_radius2(v: &super::convex_cell::Vertex) -> f64 {
+    v.radius2
+}
+
+/// A `SimpleCycle` driven from outside; `state` returns `(ptrs, start, len)`.
+pub struct Cycle(pub(crate) SimpleCycle);
+
+impl Cycle {
+    pub fn new(capacity: usize) -> Self {
+        Cycle(SimpleCycle::new(capacity))
+    }
+    pub fn grow(&mut self) {
+        self.0.grow()
+    }
+    pub fn init(&mut self, a: usize, b: usize, c: usize) {
+        self.0.init(a, b, c)
+    }
+    pub fn try_extend(&mut self, a: usize, b: usize, c: usize) -> Result<(), ()> {
+        self.0.try_extend(a, b, c)
+    }
+    pub fn len(&self) -> usize {
+        self.0.len
+    }
+    pub fn walk(&self, n: usize) -> Vec<usize> {
+        self.0.iter().take(n).collect()
+    }
+    pub fn state(&self) -> (Vec<usize>, usize, usize) {
+        self.0.verif_state()
+    }
+}
+
+/// Raw `Voronoi` from hand-made faces `(left, right, shift)`, then the real `finalize`.
+pub fn voronoi_from_raw_faces(
+    n_cells: usize,
+    faces: &[(usize, Option<usize>, Option<DVec3>)],
+) -> Voronoi {
+    let voronoi_cells: Vec<VoronoiCell> = (0..n_cells).map(|_| VoronoiCell::default()).collect();
+    let faces: Vec<VoronoiFace> =
+        faces.iter().map(|&(l, r, s)| VoronoiFace::verif_raw(l, r, s)).collect();
+    Voronoi {
+        anchor: DVec3::ZERO,
+        width: DVec3::ONE,
+        voronoi_cells,
+        faces,
+        cell_face_connections: vec![],
+        dimensionality: Dimensionality::ThreeD,
+        periodic: false,
+    }
+    .finalize()
+}
+
+pub fn wrapping_nn_shifts(
+    generators: &[Generator],
+    loc: DVec3,
+    width: DVec3,
+    dimensionality: Dimensionality,
+    take: usize,
+) -> Vec<(usize, Option<DVec3>)> {
+    let rtree = crate::rtree_nn::build_rtree(generators);
+    crate::rtree_nn::wrapping_nn_iter(&rtree, loc, width, dimensionality).take(take).collect()
+}
